@@ -123,29 +123,34 @@ func (s *LinkedLog) Read(offset uint64) ([]OffsetAndSizeAndSlot, indexes.OffsetA
 	if n <= 0 {
 		return nil, indexes.OffsetAndSize{}, errors.New("invalid compacted indexes length")
 	}
-	return s.ReadWithSize(offset, compactedIndexesLen)
+	// ReadWithSize expects the size of the whole record, length prefix included.
+	return s.ReadWithSize(offset, uint64(n)+compactedIndexesLen)
 }
 
-func sizeOfUvarint(n uint64) int {
-	return binary.PutUvarint(make([]byte, binary.MaxVarintLen64), n)
-}
-
+// ReadWithSize reads the record of `size` bytes stored at the given offset; `size` is the number of bytes
+// that Put reported for it: the uvarint length prefix, the compressed indexes and the pointer to the previous record.
 func (s *LinkedLog) ReadWithSize(offset uint64, size uint64) ([]OffsetAndSizeAndSlot, indexes.OffsetAndSize, error) {
 	if size > 256*mib {
 		return nil, indexes.OffsetAndSize{}, fmt.Errorf("compacted indexes length too large: %d", size)
 	}
-	// debugln("compactedIndexesLen:", compactedIndexesLen)
-	// Read the compressed indexes
-	data := make([]byte, size-uint64(sizeOfUvarint(size))) // The size bytes have already been read.
-	_, err := s.file.ReadAt(data, int64(offset)+int64(sizeOfUvarint(size)))
+	record := make([]byte, size)
+	_, err := s.file.ReadAt(record, int64(offset))
 	if err != nil {
 		return nil, indexes.OffsetAndSize{}, err
 	}
+	// The width of the length prefix has to be taken from the record itself: it cannot be derived from `size`,
+	// because `size` includes the prefix and may need one more uvarint byte than the length it encodes
+	// (e.g. a 127-byte payload is a 128-byte record).
+	payloadLen, n := binary.Uvarint(record)
+	if n <= 0 || uint64(n)+payloadLen != size || payloadLen < indexes.IndexValueSize_CidToOffsetAndSize {
+		return nil, indexes.OffsetAndSize{}, fmt.Errorf("invalid record of size %d at offset %d", size, offset)
+	}
+	data := record[n:]
 	// debugln_(func() []any { return []any{"data:", bin.FormatByteSlice(data)} })
-	// the indexesBytes are up until the last 8 bytes, which are the `next` offset.
-	indexesBytes := data[:len(data)-9]
+	// the indexesBytes are up until the last 9 bytes, which are the `next` offset and size.
+	indexesBytes := data[:len(data)-indexes.IndexValueSize_CidToOffsetAndSize]
 	var nextOffset indexes.OffsetAndSize
-	err = nextOffset.FromBytes(data[len(data)-9:])
+	err = nextOffset.FromBytes(data[len(data)-indexes.IndexValueSize_CidToOffsetAndSize:])
 	if err != nil {
 		return nil, indexes.OffsetAndSize{}, fmt.Errorf("error while reading next offset: %w", err)
 	}
